@@ -8,15 +8,15 @@ def EqL (ws : List Win) : Prop := ∀ w ∈ ws, w.admitted = w.charged
 
 def EqAll (ss : SSt) : Prop := ∀ k, EqL (ss.at k)
 
-theorem eqL_charge_admit (win t : Nat) (ws : List Win) (h : EqL ws) : EqL (admitWin (chargeWin win t ws)) := by
+theorem eqL_charge_admit (win t cost : Nat) (ws : List Win) (h : EqL ws) : EqL (admitWin cost (chargeWin win t cost ws)) := by
   cases ws with
-  | nil => intro w hw; simp [chargeWin, admitWin] at hw; subst hw; rfl
+  | nil => intro w hw; simp [chargeWin, admitWin] at hw; subst hw; simp
   | cons v rest =>
     by_cases ho : outside win v.start t = true
     · intro w hw
       simp only [chargeWin, ho, if_true, admitWin, List.mem_cons] at hw
       rcases hw with hw | hw | hw
-      · subst hw; rfl
+      · subst hw; simp
       · subst hw; exact h _ (by simp)
       · exact h w (by simp [hw])
     · intro w hw
@@ -27,15 +27,15 @@ theorem eqL_charge_admit (win t : Nat) (ws : List Win) (h : EqL ws) : EqL (admit
         simp [this]
       · exact h w (by simp [hw])
 
-theorem eqL_charge_refund (win t : Nat) (ws : List Win) (h : EqL ws) : EqL (refundWin (chargeWin win t ws)) := by
+theorem eqL_charge_refund (win t cost : Nat) (ws : List Win) (h : EqL ws) : EqL (refundWin cost (chargeWin win t cost ws)) := by
   cases ws with
-  | nil => intro w hw; simp [chargeWin, refundWin] at hw; subst hw; rfl
+  | nil => intro w hw; simp [chargeWin, refundWin] at hw; subst hw; simp
   | cons v rest =>
     by_cases ho : outside win v.start t = true
     · intro w hw
       simp only [chargeWin, ho, if_true, refundWin, List.mem_cons] at hw
       rcases hw with hw | hw | hw
-      · subst hw; rfl
+      · subst hw; simp
       · subst hw; exact h _ (by simp)
       · exact h w (by simp [hw])
     · intro w hw
@@ -76,10 +76,10 @@ theorem sInc_false_at (t : Nat) (h : Hdrs) : ∀ (ch : List (QId × QuotaCfg)) (
     obtain ⟨a, c⟩ := ac
     have hother := keys_ne h hnd
     rw [sInc_cons] at hf ⊢
-    by_cases hblk : c.max < curCharged c.win t (ss.at (a, groupOf c h)) + 1
+    by_cases hblk : c.max < curCharged c.win t (ss.at (a, groupOf c h)) + costOf c h
     · simp only [hblk, if_true]; exact hq
     · simp only [hblk, if_false] at hf ⊢
-      by_cases hup : (sInc (KMap.set ss (a, groupOf c h) (chargeWin c.win t (ss.at (a, groupOf c h)))) rest t h).2 = true
+      by_cases hup : (sInc (KMap.set ss (a, groupOf c h) (chargeWin c.win t (costOf c h) (ss.at (a, groupOf c h)))) rest t h).2 = true
       · simp [hup] at hf
       · simp only [hup, Bool.false_eq_true, if_false]
         rw [SSt.at_set]
@@ -88,74 +88,95 @@ theorem sInc_false_at (t : Nat) (h : Hdrs) : ∀ (ch : List (QId × QuotaCfg)) (
           simp only [if_true]
           rw [sInc_at_other _ _ _ _ _ hother, SSt.at_set]
           simp only [if_true]
-          exact eqL_charge_refund _ _ _ hq
+          exact eqL_charge_refund _ _ _ _ hq
         · simp only [hk, if_false]
           apply ih _ (nodup_tail hnd) (by simpa using hup) q
           rw [SSt.at_set]; simpa [hk] using hq
 
-/-- An arrival charged to the whole chain: each level of the chain is one admission short of
-    `admitted = charged`, the other levels are untouched. -/
+theorem mem_keys_cons {a : QId} {c : QuotaCfg} {rest : List (QId × QuotaCfg)} {h : Hdrs} {q : Key}
+    (hk : (a, groupOf c h) ≠ q) :
+    (q ∈ ((a, c) :: rest).map (fun p => keyOf p h)) ↔ (q ∈ rest.map (fun p => keyOf p h)) := by
+  simp only [List.map_cons, List.mem_cons, keyOf]
+  constructor
+  · rintro (e | e)
+    · exact absurd e.symm hk
+    · exact e
+  · exact fun e => Or.inr e
+
+/-- An arrival charged to the whole chain: each level of the chain is one admission (of what the
+    request counts there) short of `admitted = charged`, the other levels are untouched. -/
 theorem sInc_true_at (t : Nat) (h : Hdrs) : ∀ (ch : List (QId × QuotaCfg)) (ss : SSt),
     (ch.map (·.1)).Nodup → (sInc ss ch t h).2 = true →
     ∀ q, EqL (ss.at q) →
-      EqL (if q ∈ ch.map (fun p => keyOf p h) then admitWin ((sInc ss ch t h).1.at q) else (sInc ss ch t h).1.at q) := by
+      (∀ p ∈ ch, keyOf p h = q → EqL (admitWin (costOf p.2 h) ((sInc ss ch t h).1.at q))) ∧
+      (q ∉ ch.map (fun p => keyOf p h) → EqL ((sInc ss ch t h).1.at q)) := by
   intro ch
   induction ch with
-  | nil => intro ss _ _ q hq; simpa [sInc] using hq
+  | nil => intro ss _ _ q hq; exact ⟨fun p hp => by simp at hp, fun _ => by simpa [sInc] using hq⟩
   | cons ac rest ih =>
     intro ss hnd hok q hq
     obtain ⟨a, c⟩ := ac
     have hother := keys_ne h hnd
     rw [sInc_cons] at hok ⊢
-    by_cases hblk : c.max < curCharged c.win t (ss.at (a, groupOf c h)) + 1
+    by_cases hblk : c.max < curCharged c.win t (ss.at (a, groupOf c h)) + costOf c h
     · simp [hblk] at hok
     · simp only [hblk, if_false] at hok ⊢
-      by_cases hup : (sInc (KMap.set ss (a, groupOf c h) (chargeWin c.win t (ss.at (a, groupOf c h)))) rest t h).2 = true
+      by_cases hup : (sInc (KMap.set ss (a, groupOf c h) (chargeWin c.win t (costOf c h) (ss.at (a, groupOf c h)))) rest t h).2 = true
       · simp only [hup, if_true]
         by_cases hk : (a, groupOf c h) = q
         · subst hk
-          simp only [List.map_cons, keyOf, List.mem_cons, true_or, if_true]
-          rw [sInc_at_other _ _ _ _ _ hother, SSt.at_set]
-          simp only [if_true]
-          exact eqL_charge_admit _ _ _ hq
+          constructor
+          · intro p hp hkey
+            simp only [List.mem_cons] at hp
+            rcases hp with hp | hp
+            · subst hp
+              rw [sInc_at_other _ _ _ _ _ hother, SSt.at_set]
+              simp only [if_true]
+              exact eqL_charge_admit _ _ _ _ hq
+            · exact absurd hkey (hother p hp)
+          · intro hnot
+            exfalso; apply hnot; simp [keyOf]
         · have := ih _ (nodup_tail hnd) hup q (by rw [SSt.at_set]; simpa [hk] using hq)
-          have hmem : (q ∈ ((a, c) :: rest).map (fun p => keyOf p h)) ↔ (q ∈ rest.map (fun p => keyOf p h)) := by
-            simp only [List.map_cons, List.mem_cons, keyOf]
-            constructor
-            · rintro (e | e)
-              · exact absurd e.symm hk
-              · exact e
-            · exact fun e => Or.inr e
-          simp only [hmem]
-          exact this
+          constructor
+          · intro p hp hkey
+            simp only [List.mem_cons] at hp
+            rcases hp with hp | hp
+            · subst hp; exact absurd hkey hk
+            · exact this.1 p hp hkey
+          · intro hnot
+            exact this.2 (fun hm => hnot ((mem_keys_cons hk).mpr hm))
       · simp [hup] at hok
 
 theorem sAdmit_at (h : Hdrs) : ∀ (ch : List (QId × QuotaCfg)) (ss : SSt), (ch.map (·.1)).Nodup →
-    ∀ q, (sAdmit ss ch h).at q = if q ∈ ch.map (fun p => keyOf p h) then admitWin (ss.at q) else ss.at q := by
+    (∀ p ∈ ch, (sAdmit ss ch h).at (keyOf p h) = admitWin (costOf p.2 h) (ss.at (keyOf p h))) ∧
+    (∀ q, q ∉ ch.map (fun p => keyOf p h) → (sAdmit ss ch h).at q = ss.at q) := by
   intro ch
   induction ch with
-  | nil => intro ss _ q; simp [sAdmit]
+  | nil => intro ss _; exact ⟨fun p hp => by simp at hp, fun q _ => by simp [sAdmit]⟩
   | cons ac rest ih =>
-    intro ss hnd q
+    intro ss hnd
     obtain ⟨a, c⟩ := ac
     have hother := keys_ne h hnd
-    rw [sAdmit_cons, ih _ (nodup_tail hnd)]
-    by_cases hk : (a, groupOf c h) = q
-    · subst hk
-      have hnot : (a, groupOf c h) ∉ rest.map (fun p => keyOf p h) := by
-        intro hm
-        obtain ⟨p, hp, e⟩ := List.mem_map.mp hm
-        exact hother p hp e
-      simp only [keyOf] at hnot
-      simp [hnot, SSt.at_set, keyOf]
-    · have hmem : (q ∈ ((a, c) :: rest).map (fun p => keyOf p h)) ↔ (q ∈ rest.map (fun p => keyOf p h)) := by
-        simp only [List.map_cons, List.mem_cons, keyOf]
-        constructor
-        · rintro (e | e)
-          · exact absurd e.symm hk
-          · exact e
-        · exact fun e => Or.inr e
-      simp only [hmem, SSt.at_set, hk, if_false]
+    have hnot : (a, groupOf c h) ∉ rest.map (fun p => keyOf p h) := by
+      intro hm
+      obtain ⟨p, hp, e⟩ := List.mem_map.mp hm
+      exact hother p hp e
+    obtain ⟨ih1, ih2⟩ := ih (KMap.set ss (a, groupOf c h) (admitWin (costOf c h) (ss.at (a, groupOf c h)))) (nodup_tail hnd)
+    rw [sAdmit_cons]
+    constructor
+    · intro p hp
+      simp only [List.mem_cons] at hp
+      rcases hp with hp | hp
+      · subst hp
+        show (sAdmit _ rest h).at (a, groupOf c h) = _
+        rw [ih2 _ hnot, SSt.at_set]; simp [keyOf]
+      · rw [ih1 p hp, SSt.at_set]
+        simp [Ne.symm (hother p hp)]
+    · intro q hq
+      have hk : (a, groupOf c h) ≠ q := by
+        intro e; apply hq; simp [keyOf, e]
+      rw [ih2 q (fun hm => hq ((mem_keys_cons hk).mpr hm)), SSt.at_set]
+      simp [hk]
 
 /-- If the arrival is not charged to the whole chain, some quota of the chain had no room. -/
 theorem sInc_false_full (t : Nat) (h : Hdrs) : ∀ (ch : List (QId × QuotaCfg)) (ss : SSt),
@@ -168,21 +189,22 @@ theorem sInc_false_full (t : Nat) (h : Hdrs) : ∀ (ch : List (QId × QuotaCfg))
     obtain ⟨a, c⟩ := ac
     have hother := keys_ne h hnd
     rw [sInc_cons] at hf
-    by_cases hblk : c.max < curCharged c.win t (ss.at (a, groupOf c h)) + 1
+    by_cases hblk : c.max < curCharged c.win t (ss.at (a, groupOf c h)) + costOf c h
     · simp only [fullCharged, List.any_cons, Bool.or_eq_true, decide_eq_true_eq]
-      left; omega
+      left; exact hblk
     · simp only [hblk, if_false] at hf
-      by_cases hup : (sInc (KMap.set ss (a, groupOf c h) (chargeWin c.win t (ss.at (a, groupOf c h)))) rest t h).2 = true
+      by_cases hup : (sInc (KMap.set ss (a, groupOf c h) (chargeWin c.win t (costOf c h) (ss.at (a, groupOf c h)))) rest t h).2 = true
       · simp [hup] at hf
       · have := ih _ (nodup_tail hnd) (by simpa using hup)
-        have hc : fullCharged (KMap.set ss (a, groupOf c h) (chargeWin c.win t (ss.at (a, groupOf c h)))) rest t h
+        have hc : fullCharged (KMap.set ss (a, groupOf c h) (chargeWin c.win t (costOf c h) (ss.at (a, groupOf c h)))) rest t h
             = fullCharged ss rest t h := by
           apply fullCharged_congr
           intro p hp
           rw [SSt.at_set]
           simp [Ne.symm (hother p hp)]
         rw [hc] at this
-        have hh : fullCharged ss ((a, c) :: rest) t h = (decide (c.max ≤ curCharged c.win t (ss.at (a, groupOf c h)))
+        have hh : fullCharged ss ((a, c) :: rest) t h =
+            (decide (c.max < curCharged c.win t (ss.at (a, groupOf c h)) + costOf c h)
             || fullCharged ss rest t h) := by simp [fullCharged]
         rw [hh, this]; simp
 
@@ -200,19 +222,22 @@ theorem full_admitted_of_charged (ss : SSt) (t : Nat) (h : Hdrs) (heq : EqAll ss
     · right; exact ih hf
 
 /-- One request at a time, every request id new: a refused limiter call met a quota of its chain that
-    had already let `max` requests through in its current window. -/
-theorem seq_exact_run (cfg : Cfg) (hpf : ParentsFirst cfg) : ∀ (ops : List Op) (st : St) (ss : SSt),
-    LevelsRel cfg st ss → (∀ r ∈ opArr ops, ∀ k, (st.at k).memo.lookup r = none) → nodupB (opArr ops) = true →
+    had no room left for what the request counts there, given what it had already let through in its
+    current window. -/
+theorem seq_exact_run (cfg : Cfg) (hpf : ParentsFirst cfg) : ∀ (ops : List Op) (st : St) (ss : SSt) (arr : List (Rid × Hdrs)),
+    LevelsRel cfg st ss → AmtInv cfg st arr →
+    (∀ r ∈ opArr ops, ∀ k, (st.at k).memo.lookup r = none) → nodupB (opArr ops) = true →
     (∀ o ∈ ops, o.kind = .req) → EqAll ss →
     exactFrom cfg fullAdmitted ss (observe cfg st ops) = true := by
   intro ops
   induction ops with
-  | nil => intro st ss _ _ _ _ _; rfl
+  | nil => intro st ss arr _ _ _ _ _ _; rfl
   | cons o os ih =>
-    intro st ss hrel hfresh hnd hreq heq
+    intro st ss arr hrel hamt hfresh hnd hreq heq
     obtain ⟨hf', hnd', hfo⟩ := fresh_step cfg st o os hfresh hnd
-    obtain ⟨hrel', hans⟩ := apiStep_rel cfg hpf st ss o hrel hfo
     have hk : o.kind = .req := hreq o (by simp)
+    obtain ⟨hrel', hans⟩ := apiStep_rel cfg hpf st ss arr o hrel hamt hfo (by intro ha; rw [hk] at ha; simp at ha)
+    have hamt' := apiStep_amt cfg st arr o hamt hfo
     have hans := hans hk
     have hcn := chain_nodup cfg hpf o.q
     -- the reconstruction keeps `admitted = charged`
@@ -222,12 +247,17 @@ theorem seq_exact_run (cfg : Cfg) (hpf : ParentsFirst cfg) : ∀ (ops : List Op)
       cases hb : (sInc ss (chain cfg o.q) o.t o.h).2 with
       | true =>
         simp only [sStep, hk]
-        rw [sAdmit_at _ _ _ hcn]
-        exact sInc_true_at o.t o.h _ ss hcn hb q (heq q)
+        obtain ⟨a1, a2⟩ := sAdmit_at o.h _ (sInc ss (chain cfg o.q) o.t o.h).1 hcn
+        obtain ⟨t1, t2⟩ := sInc_true_at o.t o.h _ ss hcn hb q (heq q)
+        by_cases hm : q ∈ (chain cfg o.q).map (fun p => keyOf p o.h)
+        · obtain ⟨p, hp, e⟩ := List.mem_map.mp hm
+          rw [← e, a1 p hp, e]
+          exact t1 p hp e
+        · rw [a2 q hm]; exact t2 hm
       | false =>
         simp only [sStep, hk]
         exact sInc_false_at o.t o.h _ ss hcn hb q (heq q)
-    have ih' := ih _ _ hrel' hf' hnd' (fun o ho => hreq o (by simp [ho])) heq'
+    have ih' := ih _ _ _ hrel' hamt' hf' hnd' (fun o ho => hreq o (by simp [ho])) heq'
     simp only [observe, exactFrom, ih', Bool.and_true]
     by_cases hc : (o.kind == Kind.req && (apiStep cfg st o).2 == some false) = true
     · simp only [hc, if_true]
